@@ -575,6 +575,25 @@ type varsCase struct {
 
 func oneVar(t *ast.Type) []varSpec { return []varSpec{{"v", t}} }
 
+// replay: everything needed to run value j of the case again (`vcheck -prop C14 -replay file`)
+func (cs varsCase) replay(j int) map[string]any {
+	decl := make([]any, len(cs.vars))
+	for i, v := range cs.vars {
+		decl[i] = map[string]any{"name": v.name, "type": v.typ.String()}
+	}
+	return map[string]any{"op": "vars", "schema": cs.schema, "document": cs.doc, "op_index": cs.opIndex, "vars": cs.vals[j], "declared": decl}
+}
+
+// parseTypeString reads `[[Int!]]!`
+func parseTypeString(s string) *ast.Type {
+	nn := strings.HasSuffix(s, "!")
+	s = strings.TrimSuffix(s, "!")
+	if strings.HasPrefix(s, "[") && strings.HasSuffix(s, "]") {
+		return &ast.Type{Elem: parseTypeString(s[1 : len(s)-1]), NonNull: nn}
+	}
+	return &ast.Type{NamedType: s, NonNull: nn}
+}
+
 func (cs varsCase) declared() string {
 	parts := make([]string, len(cs.vars))
 	for i, v := range cs.vars {
@@ -594,6 +613,39 @@ type varsStats struct {
 	strict                                          map[string]int // informational: strict GraphQL reading
 	judged                                          int
 	sampled                                         map[string]int
+	specReplay                                      map[string]map[string]any
+}
+
+func newVarsStats() *varsStats {
+	return &varsStats{errMsgs: map[string]int{}, panics: map[string]string{}, panicCount: map[string]int{}, specViol: map[string]int{}, specEx: map[string]string{},
+		outcome: map[string]int{}, strict: map[string]int{}, sampled: map[string]int{}, specReplay: map[string]map[string]any{}}
+}
+
+// reportVars files the specification findings of a run: Go panics and values that do not conform
+func reportVars(c *Ctx, st *varsStats) {
+	pk := make([]string, 0, len(st.panics))
+	for k := range st.panics {
+		pk = append(pk, k)
+	}
+	sort.Strings(pk)
+	for _, k := range pk {
+		rp := st.specReplay["panic:"+k]
+		c.Report("spec", "vars-panic:"+sanitizePanic(k), fmt.Sprintf("VariableValues panics (%s), %d cases, e.g. %s", k, st.panicCount[k], st.panics[k]), rp)
+	}
+	ek := make([]string, 0, len(st.specEx))
+	for k := range st.specEx {
+		ek = append(ek, k)
+	}
+	sort.Strings(ek)
+	for _, k := range ek {
+		what := "a returned value does not conform to its declared type"
+		if k == "accepted-although-not-coercible" {
+			what = "values were returned although the supplied value cannot conform"
+		}
+		for n := 0; n < st.specViol[k]; n++ { // the count of cases shows in the KNOWN-FINDING line
+			c.Report("spec", "vars-conforms:"+k, fmt.Sprintf("%s (%s, %d cases): %s", what, k, st.specViol[k], st.specEx[k]), st.specReplay[k])
+		}
+	}
 }
 
 func typeSexp(t *ast.Type) string { var s impl.Sx; s.Type(t); return s.String() }
@@ -687,12 +739,14 @@ func (c *Ctx) runVarsCases(cases []varsCase, st *varsStats) {
 				ex := "document `" + cs.doc + "`  vars " + cs.vals[j]
 				if old, ok := st.panics[key]; !ok || len(ex) < len(old) {
 					st.panics[key] = ex
+					st.specReplay["panic:"+key] = cs.replay(j)
 				}
 			}
 			if !sameVarsObs(g, mo[j]) {
 				st.mismatches++
-				c.Report("correspondence", "vars-model-differs", fmt.Sprintf("VariableValues and the Lean model disagree: %s vars %s: go=%s model=%s", cs.declared(), cs.vals[j], g, mo[j]),
-					map[string]any{"op": "vars", "schema": cs.schema, "document": cs.doc, "vars": cs.vals[j], "go_observation": g, "model_observation": mo[j]})
+				rp := cs.replay(j)
+				rp["go_observation"], rp["model_observation"] = g, mo[j]
+				c.Report("correspondence", "vars-model-differs", fmt.Sprintf("VariableValues and the Lean model disagree: %s vars %s: go=%s model=%s", cs.declared(), cs.vals[j], g, mo[j]), rp)
 			}
 			if strings.HasPrefix(g, "OK ") {
 				if n, err := impl.ParseSexp(g[3:]); err == nil {
@@ -742,10 +796,11 @@ func (c *Ctx) runVarsCases(cases []varsCase, st *varsStats) {
 	t0 = time.Now()
 	verdicts := c.Driver.Map(sreqs)
 	tSpec += time.Since(t0)
-	note := func(class, ex string) {
+	note := func(class, ex string, cs varsCase, vi int) {
 		st.specViol[class]++
 		if old, ok := st.specEx[class]; !ok || len(ex) < len(old) {
 			st.specEx[class] = ex
+			st.specReplay[class] = cs.replay(vi)
 		}
 	}
 	for k, v := range verdicts {
@@ -763,9 +818,9 @@ func (c *Ctx) runVarsCases(cases []varsCase, st *varsStats) {
 			switch {
 			case groups[0][x] == '1':
 			case groups[1][x] == '1':
-				note("typenameKey(R14c)", ex)
+				note("typenameKey(R14c)", ex, cs, vi)
 			default:
-				note("result-does-not-conform", ex)
+				note("result-does-not-conform", ex, cs, vi)
 			}
 			// informational: the strict GraphQL reading of the built-in scalars
 			if groups[1][x] == '1' && groups[2][x] != '1' {
@@ -782,9 +837,9 @@ func (c *Ctx) runVarsCases(cases []varsCase, st *varsStats) {
 			switch {
 			case groups[6][x] == '1':
 			case groups[7][x] == '1':
-				note("typenameKey(R14c)", ex)
+				note("typenameKey(R14c)", ex, cs, vi)
 			default:
-				note("accepted-although-not-coercible", ex)
+				note("accepted-although-not-coercible", ex, cs, vi)
 			}
 		}
 	}
@@ -825,8 +880,7 @@ func checkVarsHalf(c *Ctx, report bool) {
 		return
 	}
 	g := &vgen{r: c.R, s: schema, dist: map[string]int{}}
-	st := &varsStats{errMsgs: map[string]int{}, panics: map[string]string{}, panicCount: map[string]int{}, specViol: map[string]int{}, specEx: map[string]string{},
-		outcome: map[string]int{}, strict: map[string]int{}, sampled: map[string]int{}}
+	st := newVarsStats()
 	perType := c.Pick(120, 900)
 	if v := os.Getenv("VARS_PER_TYPE"); v != "" {
 		perType, _ = strconv.Atoi(v)
@@ -957,22 +1011,8 @@ func checkVarsHalf(c *Ctx, report bool) {
 	c.Ev.Extra["returned_values_judged"] = st.judged
 	c.Ev.Extra["strict_graphql_reading_informational"] = st.strict
 	c.Ev.Extra["error_messages"] = st.errMsgs
-	if !report {
-		return
-	}
-	for _, k := range pk {
-		c.Report("spec", "vars-panic:"+sanitizePanic(k), fmt.Sprintf("VariableValues panics (%s), %d cases, e.g. %s", k, st.panicCount[k], st.panics[k]),
-			map[string]any{"op": "vars", "schema": sdl, "example": st.panics[k], "panic": k})
-	}
-	for _, k := range ek {
-		what := "a returned value does not conform to its declared type"
-		if k == "accepted-although-not-coercible" {
-			what = "values were returned although the supplied value cannot conform"
-		}
-		for n := 0; n < st.specViol[k]; n++ { // the count of cases shows in the KNOWN-FINDING line
-			c.Report("spec", "vars-conforms:"+k, fmt.Sprintf("%s (%s, %d cases): %s", what, k, st.specViol[k], st.specEx[k]),
-				map[string]any{"op": "vars", "schema": sdl, "example": st.specEx[k]})
-		}
+	if report {
+		reportVars(c, st)
 	}
 }
 
@@ -1002,7 +1042,35 @@ func sanitizePanic(msg string) string {
 	return "other"
 }
 
+// replayVars re-runs a stored C14 case (correspondence and specification verdicts) on the current tree
+func replayVars(c *Ctx, rep map[string]any) {
+	str := func(k string) string { s, _ := rep[k].(string); return s }
+	cs := varsCase{schema: str("schema"), doc: str("document"), vals: []string{str("vars")}}
+	if f, ok := rep["op_index"].(float64); ok {
+		cs.opIndex = int(f)
+	}
+	if ds, ok := rep["declared"].([]any); ok {
+		for _, d := range ds {
+			if m, ok := d.(map[string]any); ok {
+				n, _ := m["name"].(string)
+				t, _ := m["type"].(string)
+				cs.vars = append(cs.vars, varSpec{n, parseTypeString(t)})
+			}
+		}
+	}
+	if cs.schema == "" || cs.doc == "" || cs.vals[0] == "" {
+		fmt.Println("replay file has no schema/document/vars")
+		c.ReportNoInput("runtime", "replay-unusable", "replay file has no schema/document/vars", nil)
+		return
+	}
+	st := newVarsStats()
+	c.runVarsCases([]varsCase{cs}, st)
+	fmt.Printf("replayed: go OK %d, ERR %d, PANIC %d, model mismatches %d, specification classes %v\n", st.ok, st.err, st.panic_, st.mismatches, st.specViol)
+	reportVars(c, st)
+}
+
 func init() {
+	Replayers["C14"] = replayVars
 	Checks["X-vars"] = func(c *Ctx) {
 		// a scratch check has no GqlProofs/Props file: drop the pseudo-violation RunProofs files for that,
 		// so that the exit status tells whether model and code agree
